@@ -199,6 +199,19 @@ func generate(r *runner) {
 	}
 	r.loader = false
 
+	// 4e. query strings AS WRITTEN: a malformed sibling pair next to the required
+	//     parameter, empty pieces, valueless / repeated keys, escapes (suite rawq)
+	r.rawq = true
+	for _, fs := range rawQuerySets() {
+		r.runSet(fs, rawQueryTxns([]string{"a/b", "a/c"}, len(rawQueries)), true, "raw-query")
+	}
+	r.rawq = false
+
+	// 4f. required header values x letter-case spellings of the value sent
+	for _, fs := range headerCaseSets() {
+		r.runSet(fs, headerCaseTxns([]string{"a/b", "a/c/d"}), true, "header-value-case")
+	}
+
 	// 5. malformed / odd declarations: errors and odd shapes must be modelled too
 	odd := [][]string{
 		{"a/*/b"}, {"a//b"}, {"*/*"}, {"a/*/*"}, {"*.*"}, {"a/{p}", "a/{q}"}, {"a/{p}/b", "a/{q}"},
